@@ -37,7 +37,52 @@ def _a64_uw(scan):
     return '%s.0:%d,%s.1:11,%s.3:10,memcpy.0:11,memcmp.0:11' % (_AID, scan, _FIND, _FIND)
 _names_src = open(os.path.join(os.path.dirname(os.path.abspath(__file__)), 'h_names.cpp')).read()
 _names_fns = _re.findall(r'^HARNESS (h_names_\w+)\(\)', _names_src, _re.M) + ['h_names_a64_' + l for l in _re.findall(r'NAMES_A64\((\w), +\d+\)', _names_src)]
+_B_TXT = ' The text lives in a 47-byte static array (external String storage); malloc/realloc are wrapped and asserted not to be called.'
+_B_X86 = ('x86: instruction id symbolic over the whole range [1, x86::Inst::_kIdCount) in ONE query; text = inst_id_to_string(id, kNone); string_to_inst_id(text, size) must be the same id.'
+          ' Loop bounds: binary search <= 10 steps (a span of < 1024 ids per letter), alias search <= 6 steps (44 aliases), names <= 17 characters (text bound 20).' + _B_TXT)
+_B_A64 = ('AArch64, letter %s: instruction id symbolic over the name index span of the letter [data[l].start, data[l].end), restricted to ids whose name starts with the letter'
+          ' (first character then a constant; the other ids of the span belong to the harness of their letter, h_names_a64_cover shows every id lies in the span of its first letter);'
+          ' id2 = string_to_inst_id(inst_id_to_string(id)) is not kIdNone, inst_id_to_string(id2) is the same text, and id2 == id unless one is a general-purpose and the other a SIMD id.'
+          ' Both binary searches (<= 9 steps each) and the linear scan of the whole span (up to 451 entries) are executed. Names <= 9 characters (text bound 20).' + _B_TXT)
+_B_COVER = ('%s: instruction id symbolic over [1, _kIdCount) in one query: name non-empty, <= max_name_length (and <= 20), characters a-z 0-9 _, first character a letter,'
+            ' zero terminated, and the id lies inside _inst_name_index.data[first letter] (start != 0).' + _B_TXT)
+_B_ALIAS = 'x86: alias index symbolic over [0, x86::InstDB::kAliasTableSize) in one query; alias text = decode(alias_name_index_table[i]) over alias_name_string_table; '
+_NAMES = {
+    'h_names_x86_all': dict(bounds=_B_X86, mem_gb=12, timeout=2400, rotate=(0, 2), unwindset=_x86_uw(11)),
+    'h_names_x86_cover': dict(bounds=_B_COVER % 'x86', mem_gb=3, timeout=600),
+    'h_names_a64_cover': dict(bounds=_B_COVER % 'AArch64', mem_gb=2, timeout=600, unwindset=None),
+    'h_names_a64_letters': dict(bounds='AArch64: the letters j k q v (no h_names_a64_<l> harness) have an empty name index span; max_name_length <= 20 (text bound of the harnesses)', mem_gb=1, timeout=300, unwindset=None),
+    'h_names_x86_alias': dict(bounds=_B_ALIAS + 'string_to_inst_id(text, size) == alias_index_to_inst_id_table[i], a defined id; the text is 1..max_name_length characters a-z 0-9 _ starting with a letter.'
+                              ' Loop bounds: find_instruction <= 7 steps (the spans of the letters aliases start with have < 128 ids; checked as an unwinding assertion), find_alias <= 6 steps.' + _B_TXT,
+                              mem_gb=8, timeout=1200, unwindset=_x86_uw(8)),
+    'h_names_x86_alias_names': dict(bounds=_B_ALIAS + 'id = alias_index_to_inst_id_table[i] is defined; inst_id_to_string(id, kAliases) (forms "jnbe|ja" and "cmov.nbe|a") lists the alias text and the primary name among its alternatives;'
+                                    ' where asmjit prints no list the pair (alias, primary name) must be (sal, shl) or (wait, fwait) (Intel SDM); the alias differs from the primary name.' + _B_TXT, mem_gb=3, timeout=600),
+    'h_names_x86_alias_miss': dict(bounds=_B_ALIAS + 'one character (position symbolic) replaced by one of . | ~ A (no name or alias contains them: h_names_x86_cover, h_names_x86_alias); string_to_inst_id must return kIdNone.' + _B_TXT,
+                                   mem_gb=8, timeout=2400, tiers=('thorough',), unwindset=_x86_uw(8)),
+}
+# AArch64 letters: the linear scan over spans of 300..451 ids costs 80..170 s per letter (symbolic execution of the scan is quadratic in its
+# length); the short spans run in every quick run, the long ones in one of four groups chosen by VERIF_SEED; thorough runs all of them.
+_A64_ALWAYS = 'fghwyz'
+_A64_GROUP = {0: 'estu', 1: 'abcd', 2: 'ilm', 3: 'noprx'}
 for _fn in _names_fns:
     _a64 = '_a64_' in _fn
-    HARNESSES.append(Harness('names_a64' if _a64 else 'names', _fn, unwind=21, mem_gb=10 if _fn == 'h_names_x86_all' else 6, timeout=1800,
-                             unwindset=_a64_uw(800) if _a64 else _x86_uw(11 if _fn == 'h_names_x86_all' else 8), object_bits=12 if _a64 else None, bounds='TODO'))
+    _o = dict(mem_gb=6, timeout=1500, unwindset=_a64_uw(800) if _a64 else None, rotate=None, tiers=('quick', 'thorough'))
+    if _fn in _NAMES: _o.update(_NAMES[_fn])
+    else:
+        _l = _fn[-1]
+        _o['bounds'] = _B_A64 % _l
+        if _l not in _A64_ALWAYS: _o['rotate'] = ([k for k, v in _A64_GROUP.items() if _l in v][0], 4)
+        else: _o['mem_gb'] = 3
+    HARNESSES.append(Harness('names_a64' if _a64 else 'names', _fn, unwind=21, object_bits=12 if _a64 else None, **_o))
+EXPLANATION += '; names: bounded symbolic execution of inst_id_to_string / string_to_inst_id over the real name tables with the instruction id (alias index) symbolic'
+OUTSIDE = [o for o in OUTSIDE if not o.startswith('instruction-name round trip')] + [
+    'names: string_to_inst_id called with len == SIZE_MAX (strlen path), s == nullptr, len == 0 or len > max_name_length - the harnesses always pass the exact length of a produced text',
+    'names: upper-case or mixed-case input, and texts that are no name other than an alias with one character replaced by one of . | ~ A (thorough tier only); near misses of instruction names are not generated',
+    'names: inst_id_to_string for undefined ids (error path), AArch64 ids with condition-code bits above InstIdParts::kRealId, appending to a non-empty or heap-allocated String',
+    'names: InstStringifyOptions::kAliases rendering is looked at only for the ids the 44 aliases map to',
+    'names: the dispatch by Arch in InstAPI::inst_id_to_string / string_to_inst_id (core/inst.cpp); the arch-specific functions are called directly',
+    'names: quick tier runs h_names_x86_all when VERIF_SEED is even and one of four groups of the long AArch64 letters per seed (estu / abcd / ilm / noprx); thorough runs all',
+]
+ASSUMPTIONS += ['names: memcpy / memcmp / bcmp are plain byte loops under CBMC for destinations of at most 64 bytes (checks/C13/names_mem.c); the native twins use libc and translator validation compares the two',
+                'names: malloc / realloc are wrapped (include/no_heap.h): while the code under test runs they return NULL and are counted; every harness asserts the count is 0',
+                'names: SAL = SHL and WAIT = FWAIT (Intel SDM) are the oracle for the two aliases asmjit renders without an alias list']
